@@ -26,6 +26,8 @@ MACRO_LIB = [
     'DEFINE IF <V> THEN <P> ELSE <P> END AS #0 := 0 ; #1 := 1 ; #2 := $0 ; LOOP #2 DO #0 := 1 ; #1 := 0 END ; LOOP #0 DO $1 END ; LOOP #1 DO $2 END END DEFINE',
     'DEFINE REPEAT <INT> TIMES <P> END AS #0 := $0 ; LOOP #0 DO $1 END END DEFINE',
     'DEFINE SKIP AS skip_ := 0 END DEFINE',
+    # a loop over a temporary that is assigned inside the body: the iteration count is fixed at entry all the same
+    'DEFINE DOUBLE <ID> AS #0 := $0 ; LOOP #0 DO #0 := 0 ; $0 := $0 + 1 END END DEFINE',
 ]
 PRELUDE = [
     {"name": "add", "params": ["a", "b"], "out": "a", "hasout": True,
@@ -136,7 +138,7 @@ class Gen:
                 st = {"k": "stop"}
             elif depth < self.macrodepth:
                 self.hid += 1
-                kind = r.choice(["ifelse", "ifelse", "repeat", "skip"])
+                kind = r.choice(["ifelse", "ifelse", "repeat", "skip", "double"])
                 if kind == "ifelse":
                     st = {"k": "ifelse", "h": self.hid, "v": self.slotvalue(vs, routines),
                           "then": self.block(vs, routines, depth + 1, r.randint(1, 2), True),
@@ -144,6 +146,8 @@ class Gen:
                 elif kind == "repeat":
                     st = {"k": "repeat", "h": self.hid, "c": r.choice([0, 1, 2, 3]),
                           "body": self.block(vs, routines, depth + 1, r.randint(1, 2), True)}
+                elif kind == "double":
+                    st = {"k": "double", "h": self.hid, "x": r.choice(vs)}
                 else:
                     st = {"k": "skip"}
             else:
@@ -249,6 +253,13 @@ def core_block(block):
                     {"k": "loop", "id": "H%dr" % h, "x": t0, "labels": [], "body": core_block(st["body"])}]
         elif k == "skip":
             out.append({"k": "assign", "x": "skip_", "v": {"k": "const", "c": 0}, "labels": list(st["labels"])})
+        elif k == "double":
+            h = st["h"]
+            t0 = "%%d%d" % h
+            out += [{"k": "assign", "x": t0, "v": {"k": "var", "x": st["x"]}, "labels": list(st["labels"])},
+                    {"k": "loop", "id": "H%dd" % h, "x": t0, "labels": [], "body": [
+                        {"k": "assign", "x": t0, "v": {"k": "const", "c": 0}, "labels": []},
+                        {"k": "assign", "x": st["x"], "v": {"k": "inc", "x": st["x"], "c": 1}, "labels": []}]}]
         elif k in ("loop", "while"):
             c = {kk: vv for kk, vv in st.items() if kk != "body"}
             c["body"] = core_block(st["body"])
@@ -288,6 +299,8 @@ def uservars(body, extra):
             val(st["v"])
         elif st["k"] == "skip":
             s.add("skip_")
+        elif st["k"] == "double":
+            s.add(st["x"])
     return sorted(x for x in s if not x.startswith("%"))
 
 
@@ -462,6 +475,8 @@ def render_free(prog, r, nfiles=0, lib_in_file=True, style="normal"):
                 toks.append("END")
             elif k == "skip":
                 toks.append("SKIP")
+            elif k == "double":
+                toks.extend(["DOUBLE", st["x"]])
             if i < len(b) - 1:
                 toks.append(";")
     uses_macros = any(rt["name"] in ("add", "mul") for rt in prog["routines"][:2]) and len(prog["routines"]) >= 2 \
